@@ -220,12 +220,42 @@ def handleNxm (j : J) : Except String J := do
                   ("entries", J.arr (ds.map fun d => J.arr [J.ofNat d.type, J.ofBytes d.value,
                      (match d.mask with | some m => J.ofBytes m | none => J.null)]))])
 
+/-- {"op":"stats","reply":bool,"rec":{"vals":{…,"type":t,…},"tail":[entries…] | hex},"trailer":hex}: `encStats`, then
+    `decStats` (raw read, type lookup, entry loop) and, for single-body kinds, `decBody` of the registered body class -/
+def handleStats (j : J) : Except String J := do
+  let reply ← j.boolean "reply"
+  let rj ← j.get "rec"
+  let t ← (← rj.get "vals").nat "type"
+  let L := statsLayout reply t
+  let r ← recFromJ depth L rj
+  let trailer ← j.bytes "trailer"
+  match encStats codec reply r with
+  | none => pure (J.mk [("pack", J.null)])
+  | some bs =>
+    let hdr := match hdrLen L bs with | some n => J.ofNat n | none => J.null
+    match decStats codec reply (bs ++ trailer) with
+    | none => pure (J.mk [("pack", J.ofBytes bs), ("hdr", hdr), ("dec", J.str "decode-failed")])
+    | some (r', rest) =>
+      let t' := match statsType r'.vals with | some x => x | none => t
+      let L' := statsLayout reply t'
+      let body := match (if reply then replyKind t' else requestKind t'), r'.tail with
+        | .single c, .rest b =>
+          (match env.layout c with
+           | some Lc => (match decBody codec Lc b with
+                         | some (rb, left) => J.mk [("cls", J.str c), ("rec", recToJ depth Lc rb), ("left", J.ofBytes left)]
+                         | none => J.str "body-decode-failed")
+           | none => J.str "untranslated-body-class")
+        | _, _ => J.null
+      pure (J.mk [("pack", J.ofBytes bs), ("hdr", hdr), ("len", J.ofNat bs.length),
+                  ("dec", J.mk [("rec", recToJ depth L' r'), ("rest", J.ofBytes rest)]), ("body", body)])
+
 def handle (j : J) : Except String J := do
   let op ← j.string "op"
   if op = "codec" then handleCodec j
   else if op = "decode" then handleDecode j
   else if op = "spec" then handleSpec j
   else if op = "packet_out" then handlePacketOut j
+  else if op = "stats" then handleStats j
   else if op = "match" then handleMatch j
   else if op = "nxm" then handleNxm j
   else throw s!"unknown op {op}"
